@@ -15,6 +15,8 @@ Open Scope Z_scope.
    Geometry routes on chromosome number k_rank of a genome with chromosome sizes k_sizes:
    16 Geometry.get_pileup  17 Geometry.get_mask      18 Geometry.merge_intervals   7 Geometry.sort (tags = ranks)
    15 Geometry.jaccard
+   21 get_pileup / 22 get_boolean_mask / 23 merge_intervals / 24 count_overlap on a deep multiset given with
+      multiplicities (tag of a row = number of copies of that interval; more than 2^15 intervals in all)
    19 jaccard / 20 forbes on a genome with several contigs (tags of k_a, k_b = contig rank, k_sizes = contig sizes) *)
 Record case := {
   k_op : Z; k_size : Z; k_d : Z;
@@ -47,6 +49,7 @@ Definition genome_of (c : case) : list contig :=
   map (fun r => (gsize (k_sizes c) r, on_contig r (k_a c), on_contig r (k_b c))) (arange (len (k_sizes c))).
 Definition genome_row_ok (sizes : list Z) (t : tiv) : bool :=
   (0 <=? t_tag t) && (t_tag t <? len sizes) && (0 <=? t_start t) && (t_start t <=? t_stop t) && (t_stop t <=? gsize sizes (t_tag t)).
+Definition row_w_ok (s : Z) (t : tiv) : bool := (1 <=? t_tag t) && inside s (untag t).
 Definition domain (c : case) : bool :=
   let s := k_size c in
   (1 <=? s) &&
@@ -54,6 +57,9 @@ Definition domain (c : case) : bool :=
   | 16 | 17 => wf s (A c) && genome_ok c
   | 18 => wf s (A c) && nonempty (A c) && sortedb Z.leb (map fst (A c)) && (0 <=? k_d c) && genome_ok c
   | 7 => forallb (fun z => 1 <=? z) (k_sizes c) && forallb (sort_row_ok (k_sizes c)) (k_a c)
+  | 21 | 22 => forallb (row_w_ok s) (k_a c)
+  | 23 => forallb (row_w_ok s) (k_a c) && nonempty (A c) && sortedb Z.leb (map fst (A c)) && (0 <=? k_d c)
+  | 24 => forallb (row_w_ok s) (k_a c) && forallb (row_w_ok s) (k_b c)
   | 19 | 20 => forallb (fun z => 1 <=? z) (k_sizes c) && forallb (genome_row_ok (k_sizes c)) (k_a c)
                && forallb (genome_row_ok (k_sizes c)) (k_b c)
   | 1 | 2 | 3 => wf s (A c)
@@ -92,6 +98,10 @@ Definition spec_ok (c : case) : bool :=
           && forallb (fun o => (fst o <? snd o) || existsb (iv_eqb o) (A c)) (out_ivs c)
   | 11 | 15 => frac_close c (jaccard_spec (A c) (B c) s)
   | 12 => frac_close c (forbes_spec (A c) (B c) s)
+  | 21 => zlist_eqb (k_dense c) (pileup_w_spec (k_a c) s)
+  | 22 => zlist_eqb (k_dense c) (bools_as_z (mask_w_spec (k_a c) s))
+  | 23 => ivs_eqb (out_ivs c) (merge_w_spec (k_d c) (k_a c) s)
+  | 24 => (k_num c =? overlap_w_spec (k_a c) (k_b c) s) && (k_den c =? 1)
   | 19 => frac_close c (jaccard_genome_spec (genome_of c))
   | 20 => frac_close c (forbes_genome_spec (genome_of c))
   | 13 => clip_spec_ok s (A c) (out_ivs c)
@@ -129,6 +139,10 @@ Definition model_ok (c : case) : bool :=
   | 10 => opt_ok c (unique_intersect_model (A c) (B c) s) (ivs_eqb (out_ivs c))
   | 11 => res_ok c (jaccard_stream_model (A c) (B c) s) (frac_close c)
   | 12 => res_ok c (forbes_stream_model (A c) (B c) s) (frac_close c)
+  | 21 => (k_err c =? 0) && zlist_eqb (k_dense c) (pileup_big_model (k_a c) s)
+  | 22 => (k_err c =? 0) && zlist_eqb (k_dense c) (bools_as_z (mask_big_model (k_a c) s))
+  | 23 => (k_err c =? 0) && ivs_eqb (out_ivs c) (merge_big_model (k_d c) (k_a c) s)
+  | 24 => (k_err c =? 0) && (k_num c =? count_overlap_big_model (k_a c) (k_b c) s) && (k_den c =? 1)
   | 19 => res_ok c (jaccard_genome_model (genome_of c)) (frac_close c)
   | 20 => res_ok c (forbes_genome_model (genome_of c)) (frac_close c)
   | 15 => opt_ok c (geom_jaccard_model (k_sizes c) (k_rank c) (A c) (B c)) (frac_close c)
